@@ -1,0 +1,36 @@
+//go:build verif
+
+/*
+SPDX-License-Identifier: Apache-2.0
+*/
+
+package outofband
+
+import (
+	"runtime"
+	"time"
+
+	"github.com/hyperledger/aries-framework-go/pkg/didcomm/common/service"
+)
+
+// verifExitMsg is not a message of the protocol: the listener asks a callback's message for its type before anything
+// else, which makes the listener goroutine end (its loop selects on two channels for ever and cannot be left by
+// closing one of them). Nothing is handled, written or sent.
+type verifExitMsg struct{ service.DIDCommMsgMap }
+
+func (verifExitMsg) Type() string {
+	runtime.Goexit()
+
+	return ""
+}
+
+// VerifStop ends the listener goroutine of a service instance that is not used any more (the service offers no way
+// to stop it). It reports whether the request could be queued.
+func (s *Service) VerifStop() bool {
+	select {
+	case s.callbackChannel <- &callback{msg: verifExitMsg{service.DIDCommMsgMap{}}}:
+		return true
+	case <-time.After(5 * time.Second):
+		return false
+	}
+}
